@@ -277,7 +277,14 @@ def histories(draw):
     samples = draw(st.lists(sv, min_size=n, max_size=n))
     ops = []
     for _ in range(draw(st.integers(1, 6))):
-        kind = draw(st.sampled_from(["insert", "delete", "replace", "concatenate", "subwav", "get", "get", "reopen", "get_replace_get"]))
+        kind = draw(st.sampled_from(["insert", "delete", "replace", "concatenate", "subwav", "get", "get", "reopen", "get_replace_get", "concat_insert"]))
+        if kind == "concat_insert":
+            # append, then insert inside the stretch that was just appended, with no read in between
+            app = draw(st.lists(sv, min_size=3, max_size=12))
+            ops.append({"op": "concatenate", "samples": app, "nocheck": True})
+            ops.append({"op": "insert", "samples": draw(st.lists(sv, min_size=1, max_size=4)), "t": [-1 - draw(st.integers(1, len(app) - 1)), 0.0],
+                        "nocheck": draw(st.booleans())})
+            continue
         op = {"op": kind}
         if kind in ("insert", "concatenate", "replace"):
             op["samples"] = draw(st.lists(sv, min_size=0, max_size=12))
